@@ -117,6 +117,21 @@ def run(chk):
     prog = chk.prog
     fb = prog.cls("FallbackClient")
     r1 = chk.rule("C18.R1", "every mutating method makes exactly one call, on self.caches[0], of its own name, with its parameters in Client's order")
+    # the configured order of the caches is fixed at construction: no method removes, adds or reorders caches (a read
+    # that drops a cache while walking the list skips the one behind it)
+    for f in fb.methods.values():
+        if f.name == "__init__":
+            continue
+        for n in ast.walk(f.node):
+            w = None
+            if isinstance(n, ast.Attribute) and isinstance(n.ctx, (ast.Store, ast.Del)) and is_self_attr(n, "caches"):
+                w = "rebinds self.caches"
+            elif isinstance(n, ast.Subscript) and isinstance(n.ctx, (ast.Store, ast.Del)) and is_self_attr(n.value, "caches"):
+                w = "writes into self.caches"
+            elif isinstance(n, ast.Call) and isinstance(n.func, ast.Attribute) and is_self_attr(n.func.value, "caches") and n.func.attr in ("remove", "pop", "append", "insert", "clear", "sort", "reverse", "extend"):
+                w = "calls self.caches.%s()" % n.func.attr
+            if w is not None:
+                r1.fail("FallbackClient.%s:changes-cache-list" % f.name, "FallbackClient.%s %s: the caches and their order are configuration; changing the list (least of all while a read walks over it) makes later reads consult other caches than the configured ones, or skip one" % (f.name, w), fn=f, node=n)
     n_w = 0
     for name in WRITERS:
         f = prog.method(fb, name, required=False)
